@@ -14,15 +14,18 @@ func set(s string) map[string]bool {
 
 // CSS Values and Units 4, §6 (absolute / font-relative / viewport-relative lengths, incl.
 // small/large/dynamic viewport and container query units) and §7.1 (angles). A zero of
-// these dimensions may lose its unit where the grammar allows <length> / <angle>.
+// these dimensions may lose its unit where the grammar allows <length>.
 // Time (s ms), frequency (hz khz), resolution (dpi dpcm dppx x), flex (fr) and
-// percentages are deliberately absent.
-var CSSLengthAngleUnits = set(`
+// percentages are deliberately absent. So are the angle units: CSS Values 4 §7.1 — "For legacy
+// reasons, some uses of <angle> allow a bare 0 to mean 0deg. This is not true in general" — the
+// legacy uses are arguments of transform and gradient functions, and the table is consulted for
+// values outside functions only (`rotate:0deg`, `font-style:oblique 0deg`, `offset-rotate`,
+// `image-orientation`), where `0` is not an <angle> and the declaration is dropped.
+var CSSLengthUnits = set(`
  px mm q cm in pt pc
  em rem ex rex cap rcap ch rch ic ric lh rlh
  vw vh vi vb vmin vmax svw svh svi svb svmin svmax lvw lvh lvi lvb lvmin lvmax dvw dvh dvi dvb dvmin dvmax
- cqw cqh cqi cqb cqmin cqmax
- deg grad rad turn`)
+ cqw cqh cqi cqb cqmin cqmax`)
 
 // CSS Color 4 §6.1 named colours = the SVG 1.1 list (golang.org/x/image/colornames)
 // plus rebeccapurple; values added in ExtraCSSColors.
@@ -106,6 +109,12 @@ var HTMLPClosers = set(`
 // Plus canvas and slot: both have a transparent content model (a p as their last child is conforming) and neither is
 // in the tree builder's "special" category, so their end tag is ignored while a p is open (§13.2.6.4.7 "any other
 // end tag") exactly as for the seven the standard names.
+// HTML Rendering §15.4 / §15.5: elements that are rendered as one atomic box in the inline flow
+// (replaced elements and widgets, CSS 2 §9.2.2 "atomic inline-level boxes"): white space on
+// either side of them separates them from the neighbouring text like it separates two words.
+// audio is rendered (as a control bar) when it has the controls attribute.
+var HTMLAtomicInline = set(`audio button canvas embed iframe img input meter object progress select svg textarea video`)
+
 var HTMLPKeepParents = set(`a audio canvas del ins map noscript slot video`)
 
 // HTML Living Standard §13.1.2.4: elements whose end tag may be omitted (in a suitable context).
